@@ -104,6 +104,6 @@ theorem quiet_jumps_to_end (c : Cfg) (endT : Int) (force : Bool) (s : St)
   subst hos
   simp at hab
   obtain ⟨a', f, hf, rfl, rfl⟩ := hab
-  exact (poll_contrib_none _ _ _ _ _ _ _ (hq (a', f) hf)).2.1
+  exact poll_contrib_none_time _ _ _ _ _ _ _ (hq (a', f) hf)
 
 end VivProps.C03
